@@ -255,6 +255,22 @@ def jobs(tier, seed):
             if OPS[a]["op"] in ("getitem", "get", "setdefault") or OPS[b]["op"] in ("getitem", "get", "setdefault"):
                 cfg["om"] = rng.choice([0, 0, 1, 2])
             out.append((cfg, rng.choice(inits), [[OPS[a]], [OPS[b]]], 2 if tier == "thorough" else 1))
+    # observer pairs: one thread performs a multi-step mutation (an evicting insert touches the dict twice), the other
+    # looks at BOTH affected keys one after the other; only a two-operation observer can see a half-done mutation
+    full = [{"k": 1, "v": 4}, {"k": 2, "v": 5}]
+    muts = [{"op": "setitem", "k": 3, "v": 3}] if tier != "thorough" else \
+        [{"op": "setitem", "k": 3, "v": 3}, {"op": "update", "arg": [{"k": 3, "v": 1}]}, {"op": "setdefault", "k": 3, "d": 5},
+         {"op": "update", "arg": [{"k": 3, "v": 1}, {"k": 1, "v": 2}]}]
+
+    def obs(kind, k):
+        return {"op": kind, "k": k, "d": 5} if kind != "getitem" else {"op": "getitem", "k": k}
+    kinds = [("pop", "pop"), ("get", "get")] if tier != "thorough" else \
+        [(a, b) for a in ("pop", "get", "getitem") for b in ("pop", "get", "getitem")]
+    for lru in (False, True):
+        for mu in muts:
+            for ka, kb in kinds:
+                for first, second in ((1, 3), (3, 1)):
+                    out.append(({"m": 2, "lru": lru, "om": 0}, full, [[mu], [obs(ka, first), obs(kb, second)]], 1))
     for _ in range(150 if tier == "thorough" else 15):     # longer programs
         cfg = dict(rng.choice(cfgs))
         cfg["om"] = rng.choice([0, 0, 0, 1, 2])
